@@ -53,6 +53,8 @@ func main() {
 		os.Exit(cmdFingerprint(os.Args[2:]))
 	case "solo":
 		os.Exit(cmdSolo())
+	case "readprefix":
+		os.Exit(props.RunRiskyChild())
 	default:
 		fatal2("unknown command " + os.Args[1])
 	}
@@ -74,6 +76,20 @@ type workerOut struct {
 	Violations []*core.Violation `json:"violations"`
 	Shrunk     []string          `json:"shrunk"`
 	Panic      string            `json:"panic,omitempty"`
+	KnownSeen  map[string]int    `json:"known_seen,omitempty"` // known-finding key -> times observed
+}
+
+func (k knownFinding) key() string { return k.Prop + " " + k.Sig + " " + k.Site }
+
+// matchKnown returns the known finding a violation belongs to, or nil.
+func matchKnown(known []knownFinding, v *core.Violation) *knownFinding {
+	for i := range known {
+		k := &known[i]
+		if k.Prop == v.Prop && k.Sig == v.Sig && (k.Site == "" || strings.Contains(v.Detail, k.Site)) {
+			return k
+		}
+	}
+	return nil
 }
 
 func cmdWorker(args []string) int {
@@ -85,6 +101,7 @@ func cmdWorker(args []string) int {
 	total := fs.Int("total", 1, "")
 	out := fs.String("out", "", "")
 	capS := fs.Int("cap", 0, "wall-clock safety cap in seconds (0 = none)")
+	knownPath := fs.String("known", "", "known_findings.txt")
 	fs.Parse(args[1:])
 	p := props.Get(args[0])
 	if p == nil {
@@ -98,7 +115,9 @@ func cmdWorker(args []string) int {
 		defer pprof.StopCPUProfile()
 	}
 	start := time.Now()
-	res := workerOut{Acc: props.NewAcc()}
+	res := workerOut{Acc: props.NewAcc(), KnownSeen: map[string]int{}}
+	known := loadKnown(*knownPath)
+	nNew := 0
 	func() {
 		defer func() {
 			if r := recover(); r != nil {
@@ -115,15 +134,28 @@ func cmdWorker(args []string) int {
 			rs := propSeed(*seed, p.ID(), i)
 			res.Acc.Index = i
 			vios := p.Run(rs, *tier, res.Acc)
-			for j, v := range vios {
-				if j >= 2 {
-					break
+			fresh := 0
+			for _, v := range vios {
+				if k := matchKnown(known, v); k != nil {
+					// a listed finding: counted, reported once per worker, never a reason to stop exploring
+					res.KnownSeen[k.key()]++
+					if res.KnownSeen[k.key()] == 1 {
+						sv, note := shrink(p, v)
+						res.Violations = append(res.Violations, sv)
+						res.Shrunk = append(res.Shrunk, note)
+					}
+					continue
 				}
+				if fresh >= 2 {
+					continue
+				}
+				fresh++
+				nNew++
 				sv, note := shrink(p, v)
 				res.Violations = append(res.Violations, sv)
 				res.Shrunk = append(res.Shrunk, note)
 			}
-			if len(res.Violations) >= 3 {
+			if nNew >= 3 {
 				break
 			}
 		}
@@ -275,7 +307,7 @@ func loadKnown(path string) []knownFinding {
 			case strings.HasPrefix(w, "sig="):
 				kf.Sig = strings.TrimPrefix(w, "sig=")
 			case strings.HasPrefix(w, "site="):
-				kf.Site = strings.TrimPrefix(w, "site=")
+				kf.Site = strings.ReplaceAll(strings.TrimPrefix(w, "site="), "_", " ") // '_' stands for a space
 			default:
 				text = append(text, w)
 			}
@@ -375,7 +407,7 @@ func cmdRun(args []string) int {
 		go func(i int) {
 			outf := filepath.Join(*scratch, fmt.Sprintf("w%d.json", i))
 			cmd := exec.Command(self, "worker", p.ID(), "-tier", *tier, "-seed", fmt.Sprint(*seed),
-				"-from", fmt.Sprint(i), "-stride", fmt.Sprint(*workers), "-total", fmt.Sprint(total), "-out", outf, "-cap", fmt.Sprint(capS))
+				"-from", fmt.Sprint(i), "-stride", fmt.Sprint(*workers), "-total", fmt.Sprint(total), "-out", outf, "-cap", fmt.Sprint(capS), "-known", filepath.Join(*verif, "known_findings.txt"))
 			var stderr bytes.Buffer
 			cmd.Stderr = &stderr
 			err := cmd.Run()
@@ -392,6 +424,7 @@ func cmdRun(args []string) int {
 	acc := props.NewAcc()
 	var vios []*core.Violation
 	var notes []string
+	knownSeen := map[string]int{}
 	infra := ""
 	outs := make([]*workerOut, *workers)
 	for n := 0; n < *workers; n++ {
@@ -418,6 +451,9 @@ func cmdRun(args []string) int {
 		acc.Merge(wo.Acc)
 		vios = append(vios, wo.Violations...)
 		notes = append(notes, wo.Shrunk...)
+		for k, n := range wo.KnownSeen {
+			knownSeen[k] += n
+		}
 	}
 	stFP := map[string]int{}
 	for i := 0; i < nSelf; i++ {
@@ -440,7 +476,11 @@ func cmdRun(args []string) int {
 	knownHit := map[string]bool{}
 	os.MkdirAll(filepath.Join(*verif, "replays"), 0o755)
 	for i, v := range vios {
-		if reported[v.Sig] >= 2 || nViol >= 6 {
+		isKnown := matchKnown(known, v) != nil
+		if isKnown && knownHit[matchKnown(known, v).key()] {
+			continue
+		}
+		if !isKnown && (reported[v.Sig] >= 2 || nViol >= 6) {
 			continue
 		}
 		rf := core.ReplayFile{Property: v.Prop, Signature: v.Sig, Detail: v.Detail, Seed: *seed, Tier: *tier, Shrunk: notes[i], Case: v.Case}
@@ -459,19 +499,9 @@ func cmdRun(args []string) int {
 			infra += fmt.Sprintf("violation %s did not reproduce in a fresh process (exit %d): simulator bug\n%s\n", v.Sig, code, o)
 			continue
 		}
-		// known finding?
-		matched := false
-		for _, k := range known {
-			if k.Prop == v.Prop && k.Sig == v.Sig && (k.Site == "" || strings.Contains(v.Detail, k.Site)) {
-				matched = true
-				key := k.Prop + " " + k.Sig + " " + k.Site
-				if !knownHit[key] {
-					knownHit[key] = true
-					fmt.Printf("KNOWN-FINDING: property=%s %s (%s)\n", v.Prop, k.Text, v.Sig)
-				}
-			}
-		}
-		if matched {
+		// known finding? (reproduced above; the KNOWN-FINDING lines are printed below for every listed entry)
+		if k := matchKnown(known, v); k != nil {
+			knownHit[k.key()] = true
 			continue
 		}
 		reported[v.Sig]++
@@ -507,6 +537,18 @@ func cmdRun(args []string) int {
 			fmt.Printf("VIOLATION property=C13 replay=%s\n", path)
 			exit = 1
 		}
+	}
+
+	// ---- one KNOWN-FINDING line per listed finding of this property
+	for _, k := range known {
+		if k.Prop != p.ID() {
+			continue
+		}
+		obs := "not reached by this run"
+		if knownHit[k.key()] {
+			obs = fmt.Sprintf("observed %d times in this run and reproduced in a fresh process", knownSeen[k.key()])
+		}
+		fmt.Printf("KNOWN-FINDING: property=%s %s [%s; %s]\n", k.Prop, k.Text, k.Sig, obs)
 	}
 
 	// ---- vacuity guards
